@@ -514,6 +514,10 @@ class Gen:
         r = self.r
         k = r.randint(0, 6)
         c = self.Brow(d - 1)
+        if k == 6 and r.random() < .5:
+            # membership of a string in a LIST of strings / in a row is plain (case-sensitive) Python membership
+            return r.choice(['%s in [r.item for r in %s]' % (self.S(0), src), 'field.%s not in [r.item for r in %s]' % (self.fields[0], src),
+                             '"item" in %s[0]' % src, '"Item" in %s[0]' % src, '%s in [lowercase(r.item) for r in %s]' % (self.S(0), src)])
         if k == 6:
             return r.choice(['any(description.amt > %s for description in %s)' % (self.N(0), src),
                              'all(amount.qty >= 0 and amount.amt < %s for amount in %s)' % (self.N(0), src),
